@@ -65,6 +65,38 @@ macro_rules! impl_sp { ($V:ident; $($T:ty),*) => { $(
         fn facefwd_(self, incident: Self, reference: Self) -> Self { self.face_forward(incident, reference) }
     }
 )* } }
+/// distance_squared / magnitude_squared / distance on machine element types (floats and integers)
+trait D2<T: Copy>: VecN<T> + Copy + Send + Sync { fn d2(self, o: Self) -> T; fn sub_m2(self, o: Self) -> T; }
+macro_rules! impl_d2 { ($V:ident; $($T:ty),*) => { $( impl D2<$T> for $V<$T> {
+    fn d2(self, o: Self) -> $T { self.distance_squared(o) }
+    fn sub_m2(self, o: Self) -> $T { (self - o).magnitude_squared() }
+} )* } }
+macro_rules! impl_all_d2 { ($($V:ident),*) => { $( impl_d2!($V; f32, f64, i32, i64); )* } }
+impl_all_d2!(Vec2, Vec3, Vec4, Vec8, Vec16, Vec32, Vec64, Extent2, Extent3);
+
+/// Points close to each other but far from the origin: every lane is `base*k + d/4` (floats; whole units for integers), so the
+/// lane differences are exact and `distance_squared` must be EXACTLY the sum of the squared offsets - unless it is computed from
+/// the (huge, inexact / overflowing) squared lengths of the operands instead of from their difference.
+fn dist2_offsets<T: Copy + PartialEq + Debug + Send + Sync, V: D2<T>>(s: &Section, tname: &str, mk: &(dyn Fn(i64, i64) -> T + Sync), want_of: &(dyn Fn(i64) -> T + Sync), unit: i64) {
+    let n = V::N;
+    let site = format!("{}::distance_squared<{}>", V::NAME, tname);
+    let pat: [i64; 7] = [0, 1, -1, 2, 3, -2, 1];
+    for r in 0..n.min(7) { for stride in [1usize, 2, 3] { for shift in [1usize, 3] {
+        let da: Vec<i64> = (0..n).map(|i| pat[(r + i * stride) % 7] * unit).collect();
+        let db: Vec<i64> = (0..n).map(|i| pat[(r + shift + i * (stride + 1)) % 7] * unit).collect();
+        let k: Vec<i64> = (0..n).map(|i| 1 + (i as i64 + r as i64) % 3).collect();
+        let a = V::from_elems((0..n).map(|i| mk(k[i], da[i])).collect());
+        let b = V::from_elems((0..n).map(|i| mk(k[i], db[i])).collect());
+        let sum: i64 = (0..n).map(|i| (da[i] - db[i]) * (da[i] - db[i])).sum();   // in (unit/4)^2 ... converted by want_of
+        let want = want_of(sum);
+        let inp = || json!({"lane_multipliers_of_the_base": k, "offsets_a(quarter units)": da, "offsets_b(quarter units)": db});
+        s.eval(sum != 0);
+        s.class("close points far from the origin");
+        if let Some(g) = s.call(&site, inp, || a.d2(b)) { if g != want { vio(s, &site, "not-the-squared-length-of-the-difference", json!({"input": inp(), "got": format!("{:?}", g), "want": format!("{:?}", want)}), r as u64 + stride as u64); } }
+        if let Some(g) = s.call(&site, inp, || a.sub_m2(b)) { if g != want { vio(s, &format!("{}::(a-b).magnitude_squared<{}>", V::NAME, tname), "not-the-squared-length-of-the-difference", json!({"input": inp(), "got": format!("{:?}", g), "want": format!("{:?}", want)}), r as u64 + stride as u64); } }
+    } } }
+}
+
 macro_rules! impl_all { ($($V:ident),*) => { $( impl_ring!($V; X, f64, f32, Deg); impl_sp!($V; X, f64, f32); )* } }
 impl_all!(Vec2, Vec3, Vec4, Vec8, Vec16, Vec32, Vec64, Extent2, Extent3);
 
@@ -1101,6 +1133,16 @@ fn main() {
     rep.section("dot / magnitude_squared / distance_squared / reflected (lattice, all nine spatial types)",
         "every point (a,b) of the simplex lattice L(2N, D) (elements = small non-negative integers, sum <= D) for N = lanes of the type, D >= measured degree 3 (D chosen per type from a point budget, see meta): dot = sum a_i b_i, magnitude_squared = a.a, distance_squared = |a-b|^2, reflected = a - 2(a.b)b, all on public fields, exact; a polynomial identity of degree <= D that holds on L(.,D) holds identically; non-trivial: both operands non-zero", true, true, |s| {
         each_spatial!(V => { algebraic::<V<X>>(s, &degs, th); });
+    });
+    rep.section("distance_squared of close points far from the origin (f32, f64, i32, i64; all nine spatial types)",
+        "lane i of both points is base*k_i + offset (base 4096 for f32, 2^27 for f64, 30000 for i32, 2^31 for i64; k_i in {1,2,3}; offsets from {-2..3} quarter units for floats, whole units for integers; 7 rotations x 3 strides x 2 shifts per type): every lane difference and every squared difference is exact, so distance_squared(a,b) and (a-b).magnitude_squared() must equal the exact sum of squared offsets (floats bit for bit, integers without overflow); a formula using the squared lengths of the operands cancels catastrophically / overflows here; non-trivial: a != b", true, false, |s| {
+        s.require_classes(&["close points far from the origin"]);
+        each_spatial!(V => {
+            dist2_offsets::<f32, V<f32>>(s, "f32", &|k, d| 4096.0f32 * k as f32 + d as f32 * 0.25, &|q| q as f32 / 16.0, 1);
+            dist2_offsets::<f64, V<f64>>(s, "f64", &|k, d| 134217728.0f64 * k as f64 + d as f64 * 0.25, &|q| q as f64 / 16.0, 1);
+            dist2_offsets::<i32, V<i32>>(s, "i32", &|k, d| 30000i32 * k as i32 + d as i32, &|q| q as i32, 1);
+            dist2_offsets::<i64, V<i64>>(s, "i64", &|k, d| (1i64 << 31) * k + d, &|q| q, 1);
+        });
     });
     rep.section("cross product (Vec3)",
         "every point (a,a2,b,k) of L(10, D), D = 6 (quick) / 8 (thorough) >= 4 = largest identity degree: value vs the component formula, anticommutative, orthogonal to both operands, |axb|^2 = |a|^2|b|^2-(a.b)^2, additive and homogeneous in each argument; non-trivial: a and b non-zero", true, true, |s| cross_section(s, &degs, th));
